@@ -273,6 +273,13 @@ Definition s_add (s : sset) (x : string) : sset := x :: s.
 Definition smap := list (string * string).
 Definition m_set (m : smap) (k v : string) : smap := (k, v) :: m.
 Definition m_get (m : smap) (k : string) : option string := tm_get m k.
+(* the entries a Go map holds: the latest assignment per key (m_set conses, so the FIRST
+   entry of a key is the live one; the others are dead) *)
+Fixpoint m_live (m : smap) : smap :=
+  match m with
+  | [] => []
+  | (k, v) :: r => (k, v) :: filter (fun kv => negb (String.eqb (fst kv) k)) (m_live r)
+  end.
 
 Record st := mkSt {
   s_src : list field;      (* exportedFields (after compatlize) *)
@@ -683,8 +690,10 @@ Definition analyse (sigma : oracle) (jb : job) : option analysis :=
         | None => false end in
       let src_alloc := ptr_path_list sigma (p_ptr ps) (s_src s2)
                          (fun f => match m_get (s_wmap s2) (f_name f) with Some _ => true | None => false end) in
+      (* `for _, d := range g.writeDestMap()`: the VALUES the map readSrcMap holds, i.e. its live entries (a
+         source field that claimed two destination fields -- fan-out -- only keeps the later one) *)
       let dst_alloc := ptr_path_list sigma (p_ptr pd) (s_dst s2)
-                         (fun f => existsb (fun kv => String.eqb (f_name f) (snd kv)) (s_rmap s2)) in
+                         (fun f => existsb (fun kv => String.eqb (f_name f) (snd kv)) (m_live (s_rmap s2))) in
       let with_ty (pm : ptrmap) (l : list path) :=
         map (fun p => (p, match pm_get pm p with Some t => t | None => TBasic BBool end)) l in
       let use_d := pr_use_d pr in
